@@ -13,7 +13,9 @@ time-outs of the stack) and judged:
   waiter_hangs/<site>/<link|transport>     the procedure's awaitable is still pending (site = innermost
                                            bumble frame of its await chain)
   task_left_pending/<site>/...             a task created inside the stack during the procedure is pending
-  cut_handler_raises/...                   the stack's own handler for the cut raised
+  cut_handler_raises/...                   the stack's own handler for the cut raised (transport loss: the call of
+                                           Host.on_transport_lost(); link cuts: an exception that escaped the host's
+                                           handler of the Disconnection Complete event into the event loop)
   tables/...                               Host / Device / Controller connection tables after a link cut
                                            (closed connection gone; bystander connection still everywhere)
   stale_state/<table>/...                  gatt_server.subscribers / indication_semaphores /
@@ -37,6 +39,17 @@ Extension (families added to the catalogue; all go through the same enumeration 
     (GATT read, GATT write queued behind it, two LE CoC connects, one HCI command);
   * the victim's second link carries state of its own in every transport-loss case (GATT subscription of the
     bystander, an open LE CoC / the SDP channel) and is judged after the loss.
+
+Extension 2 - procedures ABANDONED by their caller before the link goes away (case field 'abandon'): the caller
+gives up (task.cancel() or the asyncio.wait_for() time-out) while the procedure is pending, and only THEN the link is
+closed by either side, lost, or the transport is lost. What the stack kept of the abandoned procedure (a cancelled
+future, a channel in a WAIT_* state, a queued request) is torn down by the cut and judged with the same clauses.
+  * the peer never answers ('silent_at': s): from the s-th message of the procedure on, ACL data no longer reaches the
+    peer's host (its HCI command/event stream is untouched: it is still told about a disconnection and can disconnect);
+    the caller gives up 'after_ms' after the start; enumerated for every s in 0..M x 4 cut kinds;
+  * the caller gives up at a message boundary ('at': j, task.cancel()) while the peer goes on answering, and the cut
+    comes at a later boundary k >= j or after everything in flight has arrived (generated, all 37 procedures);
+  * both combined, and asyncio.wait_for() time-outs of a few ms under generated delays.
 """
 
 from __future__ import annotations
@@ -71,8 +84,17 @@ RULE = (
     'in the quick tier (every k within 2 of the boundary at which the slow user is asked, every 5th / 2nd k '
     'otherwise) and over every k in the thorough tier; in pairing cases with k <= coverage.user_prompt_at the user '
     'never answers (case field user=never), otherwise after 2 virtual seconds. '
-    'non-trivial = the procedure was still pending when the cut '
-    'fired, or the cut is a transport loss; distinct by (procedure, k, cut kind, delays, user).'
+    'Extension 2 (case field abandon = {how, silent_at, at, after_ms}): the caller abandons the procedure before the cut. '
+    'Enumerated: for the procedures of coverage.abandon_enumerated (quick: the 10 short L2CAP / RFCOMM / GATT / EATT '
+    'ones; thorough: all 22 whose answer comes from the peer\'s host) every s in 0..M (quick: up to the first s at '
+    'which the procedure completes in spite of the silence) x 4 cut kinds with the peer '
+    'silent from message s on, the caller giving up 1 virtual second after the start (quick: how alternates between '
+    'task.cancel() and asyncio.wait_for(); thorough: both) and the cut 0.2 s after the give-up. Generated (quick 160 / '
+    'thorough 16000, all 37 procedures, optional delay vectors): silent_at x time-based give-up (200 / 1000 / 5000 ms); '
+    'task.cancel() at a message boundary `at` with the peer answering and the cut at a boundary k >= at or after the '
+    'in-flight answers have arrived; both combined; wait_for() time-outs of 1 / 7 / 60 ms under delays. '
+    'non-trivial = the procedure was still pending when the cut fired, or the caller gave up a pending procedure '
+    'before the cut, or the cut is a transport loss; distinct by (procedure, k, cut kind, delays, user, abandon).'
 )
 ASSUMPTIONS = [
     '"every operation" is the procedure catalogue listed in coverage.catalogue, not every coroutine of the code base',
@@ -101,6 +123,16 @@ ASSUMPTIONS = [
     'only under cuts the peer is told about (local/remote disconnect)',
     'the gathered procedures end normally whatever their parts do (exceptions are collected), so their own ending '
     'is always "ok"; a part that hangs shows as waiter_hangs/?/... together with task_left_pending/<site>/...',
+    'a caller that gives up its await (task.cancel(), asyncio.wait_for() time-out) before the connection is closed is '
+    'ordinary use of the API and part of "any interleaving"; the abandoned procedure itself ends with the caller\'s '
+    'cancellation (an accepted ending), what is judged is the teardown that follows: tables, per-connection state, '
+    'tasks of the stack, the cut\'s own handler, the bystander and the re-connection',
+    'a peer that never answers is modelled by dropping ACL data packets between the peer\'s controller and the '
+    'peer\'s host from a given message on (the peer\'s stack never sees the request); HCI commands and events of the '
+    'peer are untouched, so the peer is told about a disconnection, can disconnect itself, and its own tables are '
+    'judged as before; the filter is removed before the re-connection clause; dropped packets do not count as messages',
+    'the abandonment is judged only through its consequences after the cut: an exception that a late answer raises in '
+    'the stack while the link stays up is not a C16 matter',
 ]
 SHRINK_KEYS = ('d0', 'd1', 'd2')
 
@@ -700,6 +732,15 @@ EXT_HCI_PROCS = ('le_encrypt', 'le_subrate_request', 'classic_switch_role', 'cla
 USER_PROCS = {'smp_pair_numeric_user_slow': 0, 'smp_pair_numeric_peer_user_slow': 1, 'smp_pair_legacy_passkey_user_slow': 0}
 MULTI_PROCS = ('le_coc_connect_two_links', 'classic_l2cap_connect_two_links', 'le_waiters_one_link')
 PROC_BY_NAME = {p.name: p for p in PROCS}
+# procedures whose answer comes from the peer's HOST over ACL: a peer that is silent on ACL leaves them pending
+ABANDON_SHORT = ('classic_l2cap_connect', 'classic_l2cap_disconnect', 'le_coc_connect', 'le_coc_disconnect',
+                 'rfcomm_dlc_disconnect', 'rfcomm_mux_disconnect', 'gatt_read', 'gatt_write',
+                 'gatt_indicate_subscribers', 'eatt_connect')
+ABANDON_PROCS = ABANDON_SHORT + (
+    'gatt_discover_services', 'gatt_subscribe', 'eatt_subscribe', 'smp_pair', 'le_coc_write_drain',
+    'sdp_search_attributes', 'rfcomm_start', 'rfcomm_open_dlc', 'avdtp_discover') + MULTI_PROCS
+ABANDON_HOW = ('cancel', 'timeout')
+ABANDON_AFTER_MS = 1000
 
 
 # ---------------------------------------------------------------------------
@@ -739,6 +780,17 @@ def _site(exc) -> str:
             site = f'{fn.split("/bumble/")[-1]}:{tb.tb_frame.f_code.co_name}'
         tb = tb.tb_next
     return site
+
+
+def _through_fan_out(exc) -> bool:
+    """The exception was raised under Host.on_hci_disconnection_complete_event (and escaped it)."""
+    tb = exc.__traceback__
+    while tb is not None:
+        code = tb.tb_frame.f_code
+        if code.co_name == 'on_hci_disconnection_complete_event' and code.co_filename.endswith('/bumble/host.py'):
+            return True
+        tb = tb.tb_next
+    return False
 
 
 def controller_has(node, handle) -> bool:
@@ -800,6 +852,26 @@ def stale_state(node, conn, handle, classic) -> list:
 # ---------------------------------------------------------------------------
 # one case
 # ---------------------------------------------------------------------------
+def norm_abandon(ab) -> dict:
+    """The caller abandons the procedure. how: 'cancel' (task.cancel()) or 'timeout' (asyncio.wait_for());
+    silent_at: the peer's host receives no ACL data once that many messages have crossed (None: the peer answers);
+    at: message boundary at which the caller cancels (how='cancel' only; None: time-based);
+    after_ms: the time-based give-up, in virtual ms after the start of the procedure."""
+    how = ab.get('how') or 'cancel'
+    if how not in ABANDON_HOW:
+        raise HarnessError(f'unknown way to abandon {how!r}')
+    silent_at, at, after_ms = ab.get('silent_at'), ab.get('at'), ab.get('after_ms')
+    if how == 'timeout':
+        at = None
+    if at is None and after_ms is None:
+        after_ms = ABANDON_AFTER_MS
+    if silent_at is not None and after_ms is None:
+        # with a silent peer the boundary `at` may never be reached: the caller gives up after 5 s at the latest
+        after_ms = 5 * ABANDON_AFTER_MS
+    return {'how': how, 'silent_at': None if silent_at is None else int(silent_at),
+            'at': None if at is None else int(at), 'after_ms': None if after_ms is None else int(after_ms)}
+
+
 def norm_case(case) -> dict:
     """Plain-data case: procedure, boundary k, cut kind and one delay vector per node (d0 victim, d1 peer, d2 bystander)."""
     legacy = list(case.get('delays') or [])
@@ -807,6 +879,8 @@ def norm_case(case) -> dict:
            'cut': case.get('cut')}
     if case.get('user'):
         out['user'] = case['user']  # 'never': the pairing user does not answer within the horizon (default: late)
+    if case.get('abandon'):
+        out['abandon'] = norm_abandon(case['abandon'])
     for i in range(3):
         d = case.get(f'd{i}')
         if d is None and i < len(legacy):
@@ -837,17 +911,23 @@ def _run_case(ctx, case, loop, measure) -> None:
     classic = proc.classic
     env = Env(classic, rich_bystander=(cut == 'transport_lost'), user=case.get('user'))
     S: dict = {'count': 0, 'cut_fired': False, 'cut_task': None, 'lost': False, 'pending_at_cut': None,
-               'count_at_done': None}
+               'count_at_done': None, 'silent': False, 'given_up': False, 'given_up_before_cut': False}
+    ab = case.get('abandon')
     labels = {f'proc:{proc.name}', f'cut:{cut}' if cut else 'unfaulted'}
     env.count_fn = lambda: S['count']
     S['env'] = env
     if case.get('user') == 'never':
         labels.add('user:never')
+    if ab:
+        labels.update({'abandoned', f'abandoned/how:{ab["how"]}',
+                       'abandoned/peer_silent' if ab['silent_at'] is not None else 'abandoned/peer_answers',
+                       'abandoned/at_boundary' if ab['at'] is not None else 'abandoned/timed'})
     failed = []
 
     def fail(sig, what):
         failed.append(sig)
-        ctx.fail(sig, f'[{proc.name}, cut={cut} after message {k}] {what}', case)
+        how = f', abandoned by the caller before ({ab})' if ab else ''
+        ctx.fail(sig, f'[{proc.name}, cut={cut} after message {k}{how}] {what}', case)
 
     # ---- phase A: world and the procedure's own set-up (never faulted)
     async def prepare():
@@ -877,6 +957,28 @@ def _run_case(ctx, case, loop, measure) -> None:
         return None if S['lost'] else packet
 
     local.tap.filters.append(drop_when_lost)
+
+    def silent_peer(direction, packet):
+        # the peer never answers: what is sent to it over ACL no longer reaches its host
+        if S['silent'] and direction == world.C2H and packet[:1] == bytes([hci.HCI_ACL_DATA_PACKET]):
+            S['dropped_for_silence'] = S.get('dropped_for_silence', 0) + 1
+            return None
+        return packet
+
+    if ab and ab['silent_at'] is not None:
+        peer.tap.filters.append(silent_peer)
+        if ab['silent_at'] <= 0:
+            S['silent'] = True
+
+    def give_up():
+        # the caller abandons the procedure (task.cancel()); nothing to give up if it is over already
+        ptask = S.get('ptask')
+        if ptask is None or ptask.done() or S['given_up']:
+            return
+        S['given_up'] = True
+        S['given_up_before_cut'] = not S['cut_fired']
+        S['count_at_give_up'] = S['count']
+        ptask.cancel()
 
     async def guarded(coro):
         try:
@@ -928,6 +1030,11 @@ def _run_case(ctx, case, loop, measure) -> None:
 
     def listener(direction, packet):
         S['count'] += 1
+        if ab:
+            if ab['silent_at'] is not None and S['count'] >= ab['silent_at'] and not S.get('silence_over'):
+                S['silent'] = True  # packets after this one
+            if ab['at'] is not None and ab['at'] > 0 and S['count'] == ab['at']:
+                loop.call_soon(give_up)  # scheduled before a cut at the same boundary
         if cut is not None and not S['cut_fired'] and k is not None and S['count'] == k:
             # after this packet has been handed to its sink
             loop.call_soon(fire_cut)
@@ -939,6 +1046,17 @@ def _run_case(ctx, case, loop, measure) -> None:
 
     async def procedure():
         try:
+            if ab and ab['how'] == 'timeout':
+                t_start, t_out = loop.time(), ab['after_ms'] / 1000.0
+                try:
+                    return ('ok', await asyncio.wait_for(proc.run(env, S['state']), t_out))
+                except asyncio.TimeoutError:
+                    if loop.time() < t_start + t_out - 1e-6:
+                        raise  # a time-out of the stack itself, not the caller's
+                    S['given_up'] = True
+                    S['given_up_before_cut'] = not S['cut_fired']
+                    S['count_at_give_up'] = S['count']
+                    return ('given_up', 'timeout')
             return ('ok', await proc.run(env, S['state']))
         except asyncio.CancelledError:
             return ('cancelled',)
@@ -947,14 +1065,20 @@ def _run_case(ctx, case, loop, measure) -> None:
 
     async def drive():
         ptask = S['ptask'] = loop.create_task(procedure())
-        if cut is not None and k == 0:
-            def hop(n):
-                if n <= 0:
-                    fire_cut()
-                else:
-                    loop.call_soon(hop, n - 1)
 
-            loop.call_soon(hop, proc.start_hops)
+        def hop(n, fn):
+            if n <= 0:
+                fn()
+            else:
+                loop.call_soon(hop, n - 1, fn)
+
+        if ab and ab['how'] == 'cancel':
+            if ab['at'] == 0:
+                loop.call_soon(hop, proc.start_hops, give_up)
+            if ab['after_ms'] is not None:
+                loop.call_later(ab['after_ms'] / 1000.0, give_up)
+        if cut is not None and k == 0:
+            loop.call_soon(hop, proc.start_hops, fire_cut)
         await asyncio.wait([ptask])
         S['count_at_done'] = S['count']
         if cut is not None and not S['cut_fired']:
@@ -1007,6 +1131,15 @@ def _run_case(ctx, case, loop, measure) -> None:
         e = S['cut_error']
         fail(f'cut_handler_raises/{cut}/{type(e).__name__}/{_site(e)}',
              f'the stack raised {e!r} at {_site(e)} while being told about the cut; its clean-up did not run to the end')
+
+    # the same when the Disconnection Complete event reached the host through the HCI stream: an exception that
+    # escaped Host.on_hci_disconnection_complete_event (the disconnection fan-out) ended up in the loop's handler
+    for err in loop.errors:
+        e = err.get('exception')
+        if e is not None and e is not S.get('cut_error') and _through_fan_out(e):
+            fail(f'cut_handler_raises/disconnection_complete/{type(e).__name__}/{_site(e)}',
+                 f'the stack raised {e!r} at {_site(e)} while handling the Disconnection Complete event; the '
+                 f'disconnection fan-out did not run to the end')
 
     # ---- clause 1: waiters released
     if not ptask.done():
@@ -1088,6 +1221,7 @@ def _run_case(ctx, case, loop, measure) -> None:
 
         async def afterwards():
             env.user = 'late'
+            S['silent'], S['silence_over'] = False, True
             await env.bystander_usable()
             phase['name'] = 'restore'
             if cut == 'link_loss':
@@ -1137,6 +1271,22 @@ def _record(ctx, case, labels, S, proc, measure) -> None:
         labels.add(f'family:{family}/cut_inside')
         if any(case_delays(case)):
             labels.add(f'family:{family}/delayed')
+    ab = case.get('abandon')
+    gave_up = bool(ab and cut is not None and S.get('given_up_before_cut') and S.get('cut_fired'))
+    if ab and cut is not None:
+        if gave_up:
+            labels.update({'abandoned/given_up_before_cut', f'abandoned/given_up_before_cut/{ab["how"]}',
+                           f'abandoned/given_up_before_cut/cut:{cut}', f'abandoned/given_up_before_cut/proc:{proc.name}'})
+            if S.get('dropped_for_silence'):
+                labels.add('abandoned/given_up_before_cut/peer_was_silent')
+            elif ab['silent_at'] is None:
+                labels.add('abandoned/given_up_before_cut/peer_answering')
+            if any(case_delays(case)):
+                labels.add('abandoned/given_up_before_cut/delayed')
+        elif S.get('given_up'):
+            labels.add('abandoned/given_up_after_cut')
+        else:
+            labels.add('abandoned/nothing_to_give_up')
     if cut is not None:
         labels.add('cut_inside_procedure' if inside else 'cut_outside_procedure')
         if k == 0:
@@ -1145,10 +1295,13 @@ def _record(ctx, case, labels, S, proc, measure) -> None:
             labels.add('user_prompt_cancelled_by_cut')
         if S.get('prompts_pending_at_cut'):
             labels.add('user_prompt_pending_at_cut')
-    nontrivial = cut is not None and (inside or cut == 'transport_lost')
+    nontrivial = cut is not None and (inside or gave_up or cut == 'transport_lost')
     fp = (case['proc'], k, cut, case_delays(case)) + ((case['user'],) if case.get('user') else ())
+    if ab:
+        fp += (('abandon', ab['how'], ab['silent_at'], ab['at'], ab['after_ms']),)
     ctx.case(fp, nontrivial, labels,
              sample={'proc': case['proc'], 'what': proc.what, 'k': k, 'cut': cut, 'delays_ms': case_delays(case),
+                     **({'abandon': ab, 'messages_at_give_up': S.get('count_at_give_up')} if ab else {}),
                      'messages_at_cut': S.get('count_at_cut'), 'procedure_pending_at_cut': S.get('pending_at_cut')})
 
 
@@ -1229,6 +1382,34 @@ def run(ctx) -> None:
                             continue
                         run_case(ctx, {'proc': name, 'k': k, 'cut': cut, 'd0': d0, 'd1': d1, 'd2': []})
 
+    # ---- procedures abandoned by their caller before the cut: the peer is silent from message s on, the caller gives
+    # up (task.cancel() / asyncio.wait_for()) after 1 s, the cut follows 0.2 s later. Every s x cut kind; how alternates
+    # in the quick tier.
+    ab_enum = ABANDON_SHORT if ctx.quick else ABANDON_PROCS
+    row_start = 0
+    ctx.extra['abandon_enumerated'] = list(ab_enum)
+    ctx.extra['abandon_generated'] = {'silent_peer': list(ABANDON_PROCS), 'cancel_at_boundary': [p.name for p in PROCS]}
+    for name in ab_enum:
+        for s_at in range(0, M[name]['M'] + 1):
+            given_up_so_far = ctx.labels.get('abandoned/given_up_before_cut', 0)
+            if ctx.quick and s_at > 0 and given_up_so_far == row_start:
+                # quick tier: a peer that went silent after s - 1 messages left nothing to give up under any cut kind
+                # (the procedure had its answers already), and going silent later drops no more than that
+                ctx.label('abandoned/enumeration_stopped_early')
+                break
+            row_start = given_up_so_far
+            for ci, cut in enumerate(KINDS):
+                hows = (ABANDON_HOW[(s_at + ci) % 2],) if ctx.quick else ABANDON_HOW
+                for how in hows:
+                    n += 1
+                    if n % ctx.nshards != ctx.shard:
+                        continue
+                    if ctx.out_of_time():
+                        ctx.label('budget_hit:enumeration')
+                        continue
+                    run_case(ctx, {'proc': name, 'k': None, 'cut': cut, 'delays': [],
+                                   'abandon': {'how': how, 'silent_at': s_at, 'after_ms': ABANDON_AFTER_MS}})
+
     # ---- generated delays for a sample of (procedure, k, cut)
     def triple(name):
         return st.fixed_dictionaries({
@@ -1244,6 +1425,40 @@ def run(ctx) -> None:
     ctx.hyp('delayed', lambda c: run_case(ctx, c), strategy, max_examples=ctx.n(500, 32000))
     strategy = st.sampled_from(sorted(new)).flatmap(triple)
     ctx.hyp('delayed_ext', lambda c: run_case(ctx, c), strategy, max_examples=ctx.n(120, 9600))
+
+    # ---- generated abandonments: silent peer x time-based give-up; task.cancel() at a boundary with the peer answering
+    # and the cut at a later boundary (or after the answers in flight arrived); both; short wait_for() under delays
+    delay_vectors = st.lists(st.lists(st.sampled_from([0, 0, 0, 1, 7, 50]), min_size=0, max_size=5), min_size=3, max_size=3)
+
+    @st.composite
+    def abandoned(draw):
+        # the small choices first, the long delay vectors last (late draws of a long example are biased to the
+        # first alternative)
+        cut = draw(st.sampled_from(KINDS))
+        silent_ok = draw(st.booleans())
+        mode = draw(st.sampled_from(['silent_timed', 'silent_timed', 'silent_cancel_at', 'cancel_at'] if silent_ok
+                                    else ['cancel_at', 'cancel_at', 'cancel_at', 'short_timeout']))
+        cut_at_boundary = draw(st.booleans())
+        how = draw(st.sampled_from(ABANDON_HOW))
+        name = draw(st.sampled_from(sorted(ABANDON_PROCS) if silent_ok else [p.name for p in PROCS]))
+        Mn = M[name]['M']
+        if mode == 'silent_timed':
+            ab = {'how': how, 'silent_at': draw(st.integers(0, Mn)), 'after_ms': draw(st.sampled_from([200, 1000, 5000]))}
+            k = draw(st.integers(0, Mn)) if cut_at_boundary else None
+        elif mode == 'short_timeout':
+            ab = {'how': 'timeout', 'silent_at': None, 'after_ms': draw(st.sampled_from([1, 7, 60]))}
+            k = draw(st.integers(0, Mn)) if cut_at_boundary else None
+        else:
+            at = draw(st.integers(0, Mn))
+            ab = {'how': 'cancel', 'silent_at': draw(st.integers(0, Mn)) if mode == 'silent_cancel_at' else None, 'at': at}
+            k = draw(st.integers(at, Mn)) if cut_at_boundary else None
+        if mode == 'short_timeout':
+            delays = draw(delay_vectors.filter(lambda d: any(any(x) for x in d)))
+        else:
+            delays = draw(st.one_of(st.just([[], [], []]), delay_vectors))
+        return norm_case({'proc': name, 'k': k, 'cut': cut, 'delays': delays, 'abandon': ab})
+
+    ctx.hyp('abandoned', lambda c: run_case(ctx, c), abandoned(), max_examples=ctx.n(160, 16000))
 
     for kind in KINDS:
         ctx.floor(f'cut:{kind}', 20)
@@ -1265,6 +1480,18 @@ def run(ctx) -> None:
     ctx.floor('user_prompt_pending_at_cut', 6 if single else 0)
     ctx.floor('second_link_had_state', 20)
     ctx.floor('second_link_judged', 20)
+    # extension 2: the caller gave up a pending procedure and the cut came afterwards (enumerated family spread over
+    # the shards + the generated family of every shard: the floors hold per shard)
+    ctx.floor('abandoned/given_up_before_cut', 150 if single else 200)
+    for how in ABANDON_HOW:
+        ctx.floor(f'abandoned/given_up_before_cut/{how}', 40)
+    for kind in KINDS:
+        ctx.floor(f'abandoned/given_up_before_cut/cut:{kind}', 25 if single else 30)
+    ctx.floor('abandoned/given_up_before_cut/peer_was_silent', 100)
+    ctx.floor('abandoned/given_up_before_cut/peer_answering', 10 if single else 50)
+    ctx.floor('abandoned/given_up_before_cut/delayed', 10 if single else 50)
+    for name in ABANDON_SHORT:
+        ctx.floor(f'abandoned/given_up_before_cut/proc:{name}', 4 if single else 1)
 
 
 def replay(ctx, case) -> None:
